@@ -8,6 +8,8 @@ import Proofs.C12.Toggle
 import Proofs.C12.PartHistory
 import Proofs.C12.PartTotal
 import Proofs.C12.Tokenless
+import Proofs.C12.LookbackOn
+import Proofs.C12.Perm
 /-!
 # C12 — statements used by `Props/C12.lean` (whole-shard level)
 
